@@ -41,6 +41,9 @@ CHECKS.update({
  "C10": dict(cat="model_checking", tech="bounded-exhaustive enumeration of inputs with a hook snapshot at every guide-tree node, plus the same oracle on every explored schedule (vgomp)",
    text="At every node completion (MERGE_END hook) the member gap vectors are copied; after the run every snapshot must equal the projection of the final alignment onto the node's members. Enumerated over all tuples of 3..5 sequences up to a length bound x 3 penalty presets, k-means trees of 104/130/230 sequences and the 99..513-sequence shapes; and evaluated on every schedule of a subset of the C02 exploration.",
    note="Snapshot member ids are mapped to final rows by re-deriving the canonical order (distinct names by construction).", ref="3/C10"),
+ "C16": dict(cat="model_checking", tech="explicit-state breadth-first search over API-call histories executed on the real library (state = history replayed in a fresh process), differential oracle + LeakSanitizer",
+   text="All histories up to depth 3 (quick) / 4 (thorough) over an alphabet of 28 library operations on two object slots and several mutually different inputs (nucleotide, protein, aligned, 104 sequences) are executed, each in a fresh process; the result of the last call must equal its result after only the calls that (transitively) touch its own objects, run in another fresh process; after freeing all objects LeakSanitizer must find nothing. A second leg runs on the real libgomp with 1 and 4 threads.",
+   note="States are not merged; MSF date/file name masked; the OpenMP runtime's own pool is outside the leak oracle (ASan leg is the OpenMP-free build).", ref="3/C16"),
  "C17": _enum("For every listed set of 2..4 uniquely named short sequences ALL alignments are generated; every ordered pair (reference, test) is compared by kalign_msa_compare under row permutations, all-gap columns and three file renderings (and a run-produced reference) and judged by an independent implementation of the score definition.",
               "Files always contain a gap character (premise); tolerance 1e-4 relative.", "3/C17"),
 })
